@@ -697,19 +697,21 @@ func c09ErrorPath(w *World, r *Report) {
 		r.fatal("anchor unresolved: parser.FormatPacketDsl")
 		return
 	}
-	// the HasErrors edge returns (dsl, non-nil error)
+	// the "errors were reported" edge returns (dsl, non-nil error); the test may be HasErrors() or len(errors) > 0 on the errors a
+	// parsing helper returned
+	unit := newParseUnit(w, fn)
 	okRet := false
 	for _, b := range fn.Blocks {
 		cond := branchCond(b)
 		if cond == nil {
 			continue
 		}
-		c, ok := cond.(*ssa.Call)
-		if !ok || c.Call.StaticCallee() == nil || c.Call.StaticCallee().Name() != "HasErrors" {
+		errSucc, _, isGate := unit.gateOf(cond)
+		if !isGate {
 			continue
 		}
 		for _, bb := range fn.Blocks {
-			if !edgeDominates(b, 0, bb) {
+			if !edgeDominates(b, errSucc, bb) {
 				continue
 			}
 			for _, ins := range bb.Instrs {
